@@ -5,7 +5,7 @@
 Require Import String.
 Require Import List NArith Bool PeanoNat Lia ZifyBool ZifyN.
 Require Import KV.Parser.Utf8 KV.Parser.Unicode KV.Parser.Keywords KV.Parser.Scanners KV.Parser.Grammar KV.Parser.Run.
-Require Import KV.Parser.Utf8Proofs KV.Parser.ScannerProofs KV.Parser.GrammarProofs KV.Parser.RoundTrip KV.Parser.RoundTrip2.
+Require Import KV.Parser.Utf8Proofs KV.Parser.ScannerProofs KV.Parser.GrammarProofs KV.Parser.RoundTrip KV.Parser.RoundTrip2 KV.Parser.RoundTrip3.
 Import ListNotations.
 Open Scope N_scope.
 
@@ -184,12 +184,42 @@ Proof.
 Qed.
 Print Assumptions C16_roundtrip_term.
 
+(* ---- (3) statement / group / SELECT round trips (first instances) --------------------------------- *)
+(* One triple whose terms are variables or IRIs (SimpleTok), under arbitrary closed layouts between all tokens:
+   the triples statement, the group graph pattern `{ s p o }` and the whole request `SELECT * WHERE { s p o }` with
+   SELECT / WHERE in ANY letter case (KwCase) and anything that is layout after the closing brace (LayoutEnd, a final
+   unterminated comment included) parse to exactly the source tree. *)
+Theorem C16_roundtrip_triple :
+  forall f w1 s w2 p w3 o rest,
+    LayoutC w1 -> LayoutC w2 -> LayoutC w3 -> SimpleTok s -> SimpleTok p -> SimpleTok o -> stmt_end rest ->
+    (do r <- triples_statement (S f) (w1 ++ s ++ w2 ++ p ++ w3 ++ o ++ rest); Ok (map strip_t (fst r), snd r)) = Ok ([(s, p, o)], rest).
+Proof. exact triple_roundtrip. Qed.
+Print Assumptions C16_roundtrip_triple.
+
+Theorem C16_roundtrip_group :
+  forall f w0 w1 s w2 p w3 o w4 rest,
+    LayoutC w0 -> LayoutC w1 -> LayoutC w2 -> LayoutC w3 -> LayoutC w4 -> SimpleTok s -> SimpleTok p -> SimpleTok o -> Valid rest ->
+    group_pattern (S (S (S f))) (w0 ++ 123 :: (w1 ++ s ++ w2 ++ p ++ w3 ++ o ++ w4 ++ 125 :: rest)) = Ok (GBgp [(s, p, o)], rest).
+Proof. exact group_roundtrip. Qed.
+Print Assumptions C16_roundtrip_group.
+
+Theorem C16_roundtrip_select :
+  forall f wa sel wb wc wh w0 w1 s w2 p w3 o w4 wz,
+    LayoutC wa -> KwCase kw_select sel -> LayoutC wb -> LayoutC wc -> KwCase kw_where wh ->
+    LayoutC w0 -> LayoutC w1 -> LayoutC w2 -> LayoutC w3 -> LayoutC w4 -> SimpleTok s -> SimpleTok p -> SimpleTok o -> LayoutEnd wz ->
+    parse_sparql_query (S (S (S (S f))))
+      (wa ++ sel ++ wb ++ star_tok ++ wc ++ wh ++ w0 ++ 123 :: (w1 ++ s ++ w2 ++ p ++ w3 ++ o ++ w4 ++ 125 :: wz))
+    = Ok (Select false [(star_tok, star_tok, None)] [] [] (GBgp [(s, p, o)]) [] [] None).
+Proof. exact select_roundtrip. Qed.
+Print Assumptions C16_roundtrip_select.
+
 (* C16_roundtrip_partial.  The full statement of the design,
      forall ast layout, wf ast -> parse (print layout ast) = Ok (ast, "")
-   for triples statements, group graph patterns and SELECT, is NOT proved; exponent forms of numbers, literals with
-   language tag / datatype and long strings are not proved at token level either.
-   They are decided on generated trees under ~10 layouts by the tree stream of checks/c16.py (implementation vs
-   Spec tree vs this model), not by a theorem. *)
+   is proved only for the one-triple family above.  NOT proved: `;` / `,` lists, several statements and the optional
+   `.`, FILTER / BIND / VALUES / GRAPH / UNION / sub-select, projections and solution modifiers, the update forms; at
+   token level exponent forms of numbers, literals with language tag / datatype and long strings.  Those are decided
+   on generated trees under ~10 layouts by the tree stream of checks/c16.py (implementation vs Spec tree vs this
+   model) and by the exhaustive follower stream, not by a theorem. *)
 
 (* ---- the lexical helpers of the lowering (utils.rs): latent panic ------------------------------- *)
 (* unescape_sparql_iri / literal_lexical_value slice `&hexadecimal[..digits]` without knowing that those bytes are
@@ -237,6 +267,12 @@ Proof.
   - apply (blanktok 98 [49; 46; 120]); [repeat constructor|reflexivity| |cbn; lia].
     repeat constructor; (now right) || (now left).
 Qed.
+
+Example C16_example_select_roundtrip :
+  parse_sparql_query 10 (bs "# q
+ seLEct * wHERe{?s <http://e/p>
+?o}#done") = Ok (Select false [(star_tok, star_tok, None)] [] [] (GBgp [(bs "?s", bs "<http://e/p>", bs "?o")]) [] [] None).
+Proof. vm_compute. reflexivity. Qed.
 
 Example C16_example_valid : Valid (bs "SELECT * WHERE { ?s ?p 'x' }").
 Proof. apply valid_ascii. vm_compute. repeat constructor. Qed.
